@@ -1,7 +1,7 @@
 SPEC = {
     "id": "C17",
-    # the invariant is proved only under two named hypotheses (RENAME's unchecked superiors, APPEND's check outside
-    # the write transaction) that the current source does not guarantee (DESIGN section 9 #11; the CREATE half of #11 is repaired) => partial; system-level evidence is the lead's wire oracle.
+    # the invariant is proved only under one named hypothesis (APPEND's check outside the write transaction) that the
+    # current source does not guarantee (DESIGN section 9 #11; the CREATE and RENAME parts of #11 are repaired) => partial; system-level evidence is the lead's wire oracle.
     "level": "other",
     "theorem_modules": ["GluonModel.Theorems.C17"],
     "correspondences": [
@@ -31,17 +31,17 @@ SPEC = {
     "trusted_base": [
         "Lean 4.33.0 kernel; axioms limited to propext, Classical.choice, Quot.sound (audited per theorem)",
         "hand-written model GluonModel/Model/Limits.lean of package limits (int64 wrap-around arithmetic as written), tied to the real package by the `limits` correspondence dialect (differential testing on boundary values, not proof)",
-        "the abstract check-then-insert machine of Model/Limits.lean (create with implicit parents - limit checked for all of them -, rename creating missing superiors unchecked, in-transaction adds, out-of-transaction check + insert per session) is a hand abstraction of State.Create / AddMessagesToMailbox / MoveMessagesFromMailbox / Mailbox.AppendRegular; which caller has which shape is read from the source by the facts translator harness/facts_limits.go (go/ast) and pinned by theorem limit_sites_today; which limits value and which quantity every Check* is applied to, which limits value the shared insertion helpers are handed, and that Mailbox.Copy / Mailbox.Move open one write transaction, by theorem limit_quantities_today (unknown shapes fail the decidable obligation)",
+        "the abstract check-then-insert machine of Model/Limits.lean (create with implicit parents - limit checked for all of them -, rename creating missing superiors - limit checked for all of them, a renamed INBOX's new home included -, in-transaction adds, out-of-transaction check + insert per session) is a hand abstraction of State.Create / AddMessagesToMailbox / MoveMessagesFromMailbox / Mailbox.AppendRegular; which caller has which shape is read from the source by the facts translator harness/facts_limits.go (go/ast) and pinned by theorem limit_sites_today; which limits value and which quantity every Check* is applied to, which limits value the shared insertion helpers are handed, and that Mailbox.Copy / Mailbox.Move open one write transaction, by theorem limit_quantities_today (unknown shapes fail the decidable obligation)",
         "facts translator harness/facts_c17tx.go (go/ast) -> Generated/Facts/UpdateTx.lean: per connector-update handler `user.apply*` of internal/backend/connector_updates.go the number of write transactions it opens (userDBWrite / userDBWriteResult / user.db.Write / db.ClientWriteType call sites in its body, and transitively in the `user` methods it calls) and whether one of them is opened from inside a for / range statement; pinned by theorem connector_update_one_transaction_today (applyMessagesCreated: one, not in a loop; no handler opens a transaction in a loop)",
         "the wire judge identifies a message across mailboxes by its RFC822.SIZE (the harness gives every message it creates a size of its own; the two messages of a RACE step share one and are flagged, COPY / MOVE sets for which that makes the overlap with the destination ambiguous are judged for invariant and clean refusal only)",
     ],
     "assumptions": [
-        "limits_invariant_partial needs NoRenameParents (State.Rename creates the missing superiors of the new name with no limit check: rename_parents_witness, confirmed on the real server: limit 3, three mailboxes, RENAME a p/q/r/s -> 6; CREATE needs no such hypothesis any more: State.Create checks the count for every mailbox it is about to create before the first one, create_within / create_applied_iff_fits, limit_sites_today item 3) and ChecksInsideTx (Mailbox.AppendRegular checks in a read transaction before the write transaction: append_race_witness, confirmed on the real server: message limit 2, one message present, two sessions APPEND at once -> both OK, 3 messages; reproducer /verif/tmp/agent-c04-repro)",
+        "limits_invariant_partial needs ChecksInsideTx only (CREATE and RENAME need no hypothesis any more: State.Create and State.Rename check the count for every mailbox they are about to create before the first one - create_within / create_applied_iff_fits, rename_within / rename_applied_iff_fits, limit_sites_today items 3 and 5; before the repairs: limit 4, three mailboxes, CREATE p/q/r/s -> 7; limit 3, three mailboxes, RENAME a p/q/r/s -> 6) - ChecksInsideTx (Mailbox.AppendRegular checks in a read transaction before the write transaction: append_race_witness, confirmed on the real server: message limit 2, one message present, two sessions APPEND at once -> both OK, 3 messages; reproducer /verif/tmp/agent-c04-repro)",
         "a limit-refused APPEND is answered NO but Mailbox.Append then stores the message in the recovery mailbox, which no limit check covers (observed on the real server: 4 refused APPENDs -> `Recovered Messages` holds 4 with message limit 2); outside the abstract machine",
-        "Rename (missing superiors), renameInbox (new mailbox) and the recovery mailbox insert without any limit check (limit_sites_today item 4); Rename / renameInbox are the model event renameParents (hypothesis NoRenameParents), the wire oracle has no RENAME step; the recovery mailbox is outside the abstract machine's event alphabet",
+        "the recovery mailbox is inserted without any limit check (limit_sites_today item 4) and is outside the abstract machine's event alphabet; Rename / renameInbox are the model event renameParents (checked since the repair); the wire oracle renames mailboxes created over IMAP onto fresh names with 0..3 missing superiors (step RENAME, judge op rename), a RENAME of INBOX is judged for invariant and clean refusal only",
         "int is 64 bits (the dialect refuses to run otherwise); counts and slice lengths are non-negative (check_sound_needs_sign shows the check is unsound for two negative arguments)",
         "all-or-nothing of a refused multi-message operation is transaction rollback (C08 database model): in the model a refused step is the identity (replace_refused_unchanged, batch_all_or_nothing), the source is tied to it by the one-write-transaction facts (limit_quantities_today item 5 for COPY / MOVE, connector_update_one_transaction_today for connector updates of any length: one transaction, not opened in a loop) and by the wire oracle, which compares every mailbox before and after every refused command and runs operations longer than db.ChunkLimit against limits crossed in the first, a middle and the last slice; what a handler with one transaction per slice would do is addSlices (Model/Limits.lean), sliced_batch_partial_effect_witness / sliced_same_when_whole_fits say when that differs",
         "a COPY / MOVE answered NO has already been announced to the connector; the dummy connector's echo then carries it out piecemeal, and from then on the connector's idea of the mailboxes differs from gluon's (known finding connector-echo-after-refusal; echo effects after an accepted command are attributed to it only in histories with an earlier refused COPY / MOVE, otherwise they are reported as cause=connector-echo-after-accepted)",
     ],
-    "explanation": "Lean theorems: each Check* that passes implies the true (unwrapped) sum is within the maximum, and fitting operations pass; CREATE keeps the mailbox limit whatever the number of missing superiors and is applied iff all of them fit, a refusal being the identity (create_within, create_applied_iff_fits); the limits invariant holds along every history under NoRenameParents (RENAME still creates missing superiors unchecked) and ChecksInsideTx, with decide-checked witnesses that each hypothesis is needed; COPY / MOVE onto a destination that already holds k of the n messages (replaceTx k n) consumes n UIDs, keeps the limits, is accepted when it fits and is the identity when refused, with a witness that a UID check discounting the duplicates would be unsound; an in-transaction add of any length is all-or-nothing and is applied iff the WHOLE batch fits (batch_all_or_nothing, batch_applied_iff_fits), whereas one transaction per slice keeps the slices before the limit (witness) and differs from the single transaction only then (sliced_same_when_whole_fits); regenerated tables of all Check*/insert call sites state which callers satisfy the hypotheses today, that every check is made on the configured limits with the full length of the inserted list, that COPY / MOVE are one write transaction, and that every connector update - applyMessagesCreated in particular - is one write transaction that is not opened in a loop. The limits package itself is differential-tested against the model on boundary values.",
+    "explanation": "Lean theorems: each Check* that passes implies the true (unwrapped) sum is within the maximum, and fitting operations pass; CREATE keeps the mailbox limit whatever the number of missing superiors and is applied iff all of them fit, a refusal being the identity (create_within, create_applied_iff_fits); the same for RENAME and the missing superiors of the new name, a RENAME that creates nothing being applied also at the limit (rename_within, rename_applied_iff_fits, rename_parents_refused_example); the limits invariant holds along every history under ChecksInsideTx, with a decide-checked witness that the hypothesis is needed; COPY / MOVE onto a destination that already holds k of the n messages (replaceTx k n) consumes n UIDs, keeps the limits, is accepted when it fits and is the identity when refused, with a witness that a UID check discounting the duplicates would be unsound; an in-transaction add of any length is all-or-nothing and is applied iff the WHOLE batch fits (batch_all_or_nothing, batch_applied_iff_fits), whereas one transaction per slice keeps the slices before the limit (witness) and differs from the single transaction only then (sliced_same_when_whole_fits); regenerated tables of all Check*/insert call sites state which callers satisfy the hypotheses today, that every check is made on the configured limits with the full length of the inserted list, that COPY / MOVE are one write transaction, and that every connector update - applyMessagesCreated in particular - is one write transaction that is not opened in a loop. The limits package itself is differential-tested against the model on boundary values.",
 }
